@@ -327,6 +327,16 @@ func runC10(w *World, r *Report) {
 			good, how := false, ""
 			if b, ok := constBool(a); ok && !b {
 				good, how = true, "constant false"
+			} else if b, ok := constBool(a); ok && b {
+				// constant true: right exactly where the same function declares that the component does not fire
+				// callbacks itself (meta.isComponentCallbackEnabled = false)
+				for _, fw := range fieldWrites(fn) {
+					if fw.field.Name() == "isComponentCallbackEnabled" {
+						if fb, ok := constBool(fw.val); ok && !fb {
+							good, how = true, "constant true, complementing meta.isComponentCallbackEnabled = false"
+						}
+					}
+				}
 			} else if _, ok := a.(*ssa.Parameter); ok {
 				good, how = true, "forwarded parameter"
 			} else if u, ok := a.(*ssa.UnOp); ok && u.Op == token.NOT {
